@@ -28,6 +28,7 @@ type renderer struct {
 	nchoice         int // number of binary-or-wider choices actually offered (for the evidence)
 	varied          int // number of choices where a non-canonical alternative was taken
 	usedCompactDate bool
+	root            *hval // the whole message, for definitions hoisted in front of scalars
 }
 
 func (r *renderer) pick(n int) int {
@@ -262,15 +263,19 @@ func (r *renderer) undefinedClasses(h *hval, acc *[]hclass) {
 }
 
 func (r *renderer) value(h *hval) {
-	// value ::= class-def value : definitions of classes used further inside may be hoisted here
+	// value ::= class-def value : definitions of classes first used further on in the message may
+	// be written here - in front of a container that uses them or of any other value, a scalar
+	// struct field included
+	var und []hclass
 	if h.k == hList || h.k == hMap || h.k == hObject {
-		var und []hclass
 		r.undefinedClasses(h, &und)
-		if len(und) > 0 && r.pick(3) == 2 {
-			k := 1 + r.ch.intn(len(und))
-			for _, c := range und[:k] {
-				r.classDef(c.name, c.fields)
-			}
+	} else if r.root != nil {
+		r.undefinedClasses(r.root, &und)
+	}
+	if len(und) > 0 && r.pick(3) == 2 {
+		k := 1 + r.ch.intn(len(und))
+		for _, c := range und[:k] {
+			r.classDef(c.name, c.fields)
 		}
 	}
 	switch h.k {
@@ -379,7 +384,7 @@ func renderChecked(h *hval, ch chooser) (bs []byte, nchoice, varied int, err err
 	return
 }
 func renderCheckedPre(h *hval, ch chooser, pre []hclass) (bs []byte, nchoice, varied int, err error) {
-	r := &renderer{ch: ch}
+	r := &renderer{ch: ch, root: h}
 	for _, c := range pre { // value ::= class-def value
 		r.classDef(c.name, c.fields)
 	}
@@ -394,7 +399,7 @@ func renderCheckedPre(h *hval, ch chooser, pre []hclass) (bs []byte, nchoice, va
 	return r.out, r.nchoice, r.varied + len(pre), nil
 }
 func renderChecked2(h *hval, ch chooser) (bs []byte, nchoice, varied int, compactDate bool, err error) {
-	r := &renderer{ch: ch}
+	r := &renderer{ch: ch, root: h}
 	defer func() { compactDate = r.usedCompactDate }()
 	r.value(h)
 	back, perr := hparseAll(r.out)
